@@ -1509,6 +1509,18 @@ class Glyph(BaseObject):
             # objects are made on demand. announce it like appendContour
             # does: representations made from the previous outline
             # (and components built on this glyph) depend on it.
+            # shallow loaded contours reserve their identifiers until they
+            # are fully loaded, as they do when they are read from a GLIF
+            # (Glyph._fullyLoadShallowLoadedContours hands them over)
+            if contours is not None:
+                identifiers = self._identifiers
+                for contour in contours:
+                    incoming = [contour.get("identifier")]
+                    incoming += [kwargs.get("identifier") for args, kwargs in contour["points"]]
+                    for identifier in incoming:
+                        if identifier is not None:
+                            assert identifier not in identifiers
+                            identifiers.add(identifier)
             set_attr(key, contours)
             self.postNotification(notification="Glyph.ContoursChanged")
 
